@@ -745,6 +745,29 @@ pub fn handle(line: &str) -> Result<String, String> {
         ("params", 1) => params_cmd(a[0].as_atom()?),
         ("dbgsyms", 2) => dbgsyms_cmd(a[0].as_atom()?, &a[1]),
         ("mapvalue", 3) => mapvalue_cmd(a[0].as_atom()?, &a[1], &a[2]),
+        ("witnodes", 3) => {
+            // C05: the (type, value) of every witness node of the satisfied, unpruned program
+            use simplicity::dag::{DagLike, InternalSharing};
+            let template = match TemplateProgram::new(a[0].as_atom()?) {
+                Ok(t) => t,
+                Err(e) => return Ok(format!("(rej {})", quote(&first_line(&e)))),
+            };
+            let compiled = match template.instantiate(Arguments::from(name_values(&a[1])?), false) {
+                Ok(c) => c,
+                Err(e) => return Ok(format!("(cerr {})", quote(&first_line(&e)))),
+            };
+            let sat = match compiled.satisfy(WitnessValues::from(name_values(&a[2])?)) {
+                Ok(s) => s,
+                Err(e) => return Ok(format!("(sat {})", quote(&first_line(&e)))),
+            };
+            let mut out = vec![];
+            for item in sat.redeem().as_ref().post_order_iter::<InternalSharing>() {
+                if let Inner::Witness(v) = item.node.inner() {
+                    out.push(Sexp::list(vec![final_to_sexp(&item.node.arrow().target), simvalue_to_sexp(v.as_ref())]));
+                }
+            }
+            Ok(Sexp::tagged("ok", out).to_string())
+        }
         ("apipaths", 4) => apipaths_cmd(a[0].as_atom()?, &a[1], &a[2], a[3].as_usize()? != 0),
         ("calls", 1) => calls_cmd(a[0].as_atom()?),
         ("ast", 1) => Ok(ast_cmd(a[0].as_atom()?)),
